@@ -25,6 +25,7 @@ ENTRIES = [(PROJ, "ProjectiveObject." + m) for m in (
 
 def run(ctx):
     ctx.do(P.rule_s1)
+    ctx.do(MI.rule_s1u)
     ctx.do(P.rule_s2)
     ctx.do(P.rule_s3)
     ctx.do(P.rule_p1)
